@@ -18,9 +18,9 @@ from harness._text_tmpl import ref_escape
 
 TECHNIQUE = "CrossHair symbolic execution of the real linkify on pooled fragments + free code points"
 
-FRAG = ["http://", "a.b", "www.", "&", " ", "javascript:", '"', "<", "(", ")", ".", ";",
+FRAG = ["http://", "a.b", "www.", "&", " ", "javascript://", '"', "<", "(", ")", ".", ";",
         "x" * 31, "/", "https://", "ftp://", "?q=1&r=2", "'", "&amp;", ">", "://", "-", "\n",
-        "y" * 9 + "/" + "z" * 12 + ".h?k" + "&" * 3]
+        "y" * 9 + "/" + "z" * 12 + ".h?k" + "&" * 3, "javascript:"]
 PROTOS = [["http", "https"], ["http"], ["ftp", "javascript"], []]
 
 
@@ -132,7 +132,7 @@ def h_link(idx: List[int], opt: int):
         reached("link_made")
     if n > 0 and text[:4] == "www.":
         reached("www_link")
-    if n == 0 and "javascript:a.b" in text:
+    if n == 0 and "javascript://a.b" in text:
         reached("bad_protocol_not_linked")
 
 
@@ -145,7 +145,7 @@ def h_link(idx: List[int], opt: int):
 def h_link_opts(idx: List[int], opt: int):
     """all option combinations: hrefs use a permitted protocol or are www. links (unless require_protocol)."""
     text, out, n = _run(idx, "", 0, opt)
-    if n > 0 and opt // 4 == 2 and text[:11] == "javascript:":
+    if n > 0 and opt // 4 == 2 and text[:13] == "javascript://":
         reached("javascript_permitted_linked")
     if n > 0 and opt // 4 == 3:
         reached("www_despite_empty_protocols")
@@ -172,20 +172,22 @@ def classify_clip(proto: int, host: int, path: int, special: int, tail: int):
 
 
 def pre_clip(proto: int, host: int, path: int, special: int, tail: int) -> bool:
-    if not (0 <= proto <= 2 and 0 <= host <= P.H and -1 <= path <= 8 and 0 <= special <= 1
+    if not (0 <= proto <= 2 and 0 <= special <= 1 and P.H0 <= host <= P.H1 and -1 <= path <= 8
             and P.T0 <= tail <= P.T1):
         return False
     if P.exclude and "shorten_splits_entity" in P.exclude:
         return False
-    return in_shard(host)
+    return in_shard(proto * 2 + special)
 
 
-@harness(pre=pre_clip, quick=dict(H=24, T0=28, T1=29, timeout=150), thorough=dict(H=40, T0=0, T1=40, timeout=1400),
-         nshards=dict(quick=5, thorough=16), classify=classify_clip, reach=["clipped_before_entity"],
+@harness(pre=pre_clip, quick=dict(H0=8, H1=22, T0=29, T1=29, timeout=150),
+         thorough=dict(H0=0, H1=40, T0=0, T1=40, timeout=1400),
+         nshards=dict(quick=6, thorough=6), classify=classify_clip, reach=["clipped_before_entity"],
          units=["escape.linkify", "escape.linkify.make_link"],
          stubs=["shorten=True; text = PROTO + 'h' * host + ('/' + 'p' * path if path >= 0) + SPECIAL + 't' * tail "
-                "with PROTO in ('http://', 'www.', 'https://'), SPECIAL in ('&', '\"'); host, path, tail are "
-                "symbolic lengths (realised by the string multiplication: every value forked)"],
+                "with PROTO in ('http://', 'www.', 'https://'), SPECIAL in ('&', '\"'); host (H0..H1), path "
+                "(-1..8) and tail (T0..T1) are symbolic lengths (realised by the string multiplication: every "
+                "value forked); quick places the special on every offset 12..39 of the URL"],
          outside=["more than one special character", "extra_params"])
 def h_clip(proto: int, host: int, path: int, special: int, tail: int):
     """no character entity is split by the shortening, wherever the entity falls."""
